@@ -32,6 +32,8 @@ def item(tok):
         return int(tok[1:])
     if tok[0] == "s":
         return tok[1:]
+    if tok[0] == "j":
+        return np.int64(int(tok[1:]))     # a label taken from a numpy array / DataFrame
     raise ValueError(tok)
 
 
@@ -352,7 +354,7 @@ class Impl:
         if op == "size":
             return "ok " + str(D(a[0]).size(a[1]))
         if op == "contains":
-            return "ok " + ("true" if a[1] in D(a[0]) else "false")
+            return "ok " + ("true" if ("" if a[1] == "<empty>" else a[1]) in D(a[0]) else "false")
         if op == "ofarr":
             return self.put_dset(a[0], self.get(a[1], FlodymArray).dims.copy())
         return "bad-op"
